@@ -2,7 +2,7 @@
    full reader loads (names, referenced names), and the byte ranges it records are consecutive, start at the
    BGNSTR records and tile the structure section of the file: copying them back (RawCell::to_gds) between a
    library header and ENDLIB reproduces that section byte for byte. *)
-Require Import Base GdsFrame GdsFrameProofs GdsModel GdsWrite GdsRoundtrip GdsSpec GdsSpecProofs GdsRaw.
+Require Import Base GdsFrame GdsFrameProofs GdsModel GdsWrite GdsRoundtrip GdsSpec GdsSpecProofs GdsRaw GdsTransplant.
 From Coq Require Import ZArith Lia ZifyBool ZifyN ZifyNat.
 Local Open Scope N_scope.
 
@@ -297,6 +297,7 @@ Definition is_block (b : recs) : Prop :=
 Lemma raw_structures : forall fuel l cs rest cells m p,
   spec_structures fuel l = Some (cs, rest) ->
   exists blocks r4, rtype r4 = 4 /\ l = concat blocks ++ r4 :: rest /\ length blocks = length cs /\ Forall is_block blocks /\
+    Forall2 block_of blocks cs /\
     run_raw (closed cells m p) l =
     inr (raw_finish (closed (rev (raw_of p blocks cs) ++ cells) (names_set m (length cells) cs) (p + total (concat blocks)))).
 Proof.
@@ -304,15 +305,16 @@ Proof.
   destruct l as [|r tl]; [discriminate|].
   destruct (rtype r =? 4) eqn:E4.
   - intros [= <- <-]. apply N.eqb_eq in E4. exists [], r. split; [exact E4|]. split; [reflexivity|]. split; [reflexivity|].
-    split; [constructor|]. cbn [concat app run_raw raw_of rev names_set total fold_right]. unfold step_raw. rewrite E4.
+    split; [constructor|]. split; [constructor|]. cbn [concat app run_raw raw_of rev names_set total fold_right]. unfold step_raw. rewrite E4.
     rewrite N.add_0_r. reflexivity.
   - destruct (is_rec 5 2 r && (plen r =? 24)) eqn:E5; [|discriminate].
     destruct (take_str 6 tl) as [[nm l1]|] eqn:Hn; [|discriminate].
     destruct (spec_elements (length l1) (skip_strclass l1)) as [[es l2]|] eqn:He; [|discriminate].
     destruct (spec_structures f l2) as [[cs' l3]|] eqn:Hs; [|discriminate].
-    intros [= <- <-].
+    intros [= <- <-]. pose proof E5 as E5'.
     apply andb_prop in E5. destruct E5 as [E5 _]. apply is_rec_true in E5. destruct E5 as [Ht5 _].
     destruct (take_str_some _ _ _ _ Hn) as (r6 & -> & Ht6 & ->).
+    destruct (structure_local _ _ _ _ _ _ E4 E5' Hn He) as (pre' & Hpre' & Hblock).
     destruct (eats_elements _ _ _ _ He) as (r7 & Ht7 & Hel).
     pose proof (eats_trans0 _ _ _ _ (eats_skip_strclass l1) Hel) as (pre & Hpre & Hrun).
     destruct (cell_of_facts (strip_nul (payload r6)) es) as [Hcn Hcd].
@@ -320,11 +322,16 @@ Proof.
     set (blk := r :: r6 :: pre ++ [r7]).
     set (newc := {| rc_name := c_name c; rc_off := p; rc_size := total blk; rc_deps := cell_deps c |}).
     destruct (IH l2 cs' l3 (newc :: cells) (map_set m (c_name c) (length cells)) (p + total blk) Hs)
-      as (blocks & r4 & Ht4 & Hl2 & Hlen & Hblk & Hrr).
+      as (blocks & r4 & Ht4 & Hl2 & Hlen & Hblk & HF2 & Hrr).
     exists (blk :: blocks), r4. split; [exact Ht4|]. split.
     { cbn [concat]. subst blk. rewrite Hpre, Hl2. cbn [app]. rewrite <- !app_assoc. reflexivity. }
     split; [cbn [length]; rewrite Hlen; reflexivity|].
     split. { constructor; [|exact Hblk]. exists r, (r6 :: pre), r7. split; [reflexivity|]. split; assumption. }
+    split.
+    { constructor; [|exact HF2]. subst blk.
+      assert (Epre : pre' = pre ++ [r7]).
+      { apply (app_inv_tail l2). rewrite <- Hpre', Hpre, <- app_assoc. reflexivity. }
+      rewrite <- Epre. exact Hblock. }
     (* the run *)
     rewrite Hpre. cbn [run_raw]. unfold step_raw at 1. rewrite Ht5. cbn [closed w_pos w_cells w_map w_open].
     cbn [run_raw]. unfold step_raw at 1. rewrite Ht6. cbn [w_open upd_head w_cells w_map w_pos rc_name rc_off rc_size rc_deps length].
@@ -378,6 +385,10 @@ Qed.
 Theorem raw_spec_records_lemma l L : spec_records l = Some L ->
   exists hdr blocks r4 rest, l = hdr ++ concat blocks ++ r4 :: rest /\ rtype r4 = 4 /\ Forall is_block blocks /\
     length blocks = length (g_cells L) /\
+    Forall2 block_of blocks (g_cells L) /\
+    (* transplant: ANY blocks that decode to cells, put between this header and this ENDLIB, give a stream the grammar accepts *)
+    (forall blks' cs', Forall2 block_of blks' cs' ->
+       spec_records (hdr ++ concat blks' ++ [r4]) = Some {| g_name := g_name L; g_units := g_units L; g_cells := cs' |}) /\
     run_raw raw_init l =
     inr (raw_finish (closed (rev (raw_of (total hdr) blocks (g_cells L))) (names_set [] 0 (g_cells L))
                             (total hdr + total (concat blocks)))).
@@ -398,10 +409,23 @@ Proof.
   assert (Hh : Forall hdr_rec hdr).
   { subst hdr. repeat constructor; try (rewrite ?Ht0, ?Ht1, ?Ht2; discriminate).
     apply Forall_app. split; [exact Hflo|]. repeat constructor; rewrite Ht3; discriminate. }
-  destruct (raw_structures _ _ _ _ [] [] (total hdr) H4) as (blocks & r4 & Ht4 & Hl3 & Hlen & Hblk & Hrun).
+  destruct (raw_structures _ _ _ _ [] [] (total hdr) H4) as (blocks & r4 & Ht4 & Hl3 & Hlen & Hblk & HF2 & Hrun).
   exists hdr, blocks, r4, rest. split.
   { subst hdr. rewrite Hlo, Hl3. cbn [app]. rewrite <- app_assoc. reflexivity. }
-  split; [exact Ht4|]. split; [exact Hblk|]. split; [exact Hlen|].
+  split; [exact Ht4|]. split; [exact Hblk|]. split; [exact Hlen|]. split; [exact HF2|].
+  split.
+  { intros blks' cs' HF'. subst hdr. cbn [app]. rewrite <- app_assoc. cbn [app].
+    unfold spec_records.
+    destruct (take1_loc _ _ _ _ _ _ H0) as [_ Hb0]. destruct (take1_loc _ _ _ _ _ _ H1) as [_ Hb1].
+    destruct (take_str_loc _ _ _ _ H2) as (r2' & Er2 & Hb2). injection Er2 as <-.
+    rewrite Hb0, Hb1, Hb2.
+    destruct (skip_libopt_loc l2) as (lo' & Hlo' & Hbl). rewrite Hl in Hlo'.
+    assert (Elo : lo' = lo) by (apply (app_inv_tail (ru :: l3)); rewrite <- Hlo', <- Hlo; reflexivity). subst lo'.
+    rewrite Hl in Hbl. rewrite (Hbl (ru :: concat blks' ++ [r4]) (sh_cons _ _ _)).
+    destruct (take1_loc _ _ _ _ _ _ H3) as [_ Hb3]. rewrite Hb3.
+    rewrite (transplant_structures_lemma blks' cs' r4 [] HF' Ht4).
+    - reflexivity.
+    - rewrite app_length. cbn [length]. pose proof (block_length_pos _ _ HF'). lia. }
   replace (r0 :: r1 :: r2 :: l2) with (hdr ++ l3).
   2:{ subst hdr. rewrite Hlo. cbn [app]. rewrite <- app_assoc. reflexivity. }
   change raw_init with (closed [] [] 0). rewrite run_raw_hdr by exact Hh. rewrite N.add_0_l.
@@ -512,6 +536,9 @@ Theorem rawcells_agree_lemma bs L : spec_decode bs = Some L -> Forall byte_ok bs
   exists hdr blocks r4 tail,
     bs = flat_map rec_bytes hdr ++ flat_map rec_bytes (concat blocks) ++ rec_bytes r4 ++ tail /\
     rtype r4 = 4 /\ Forall is_block blocks /\
+    Forall2 block_of blocks (g_cells L) /\
+    (forall blks' cs', Forall2 block_of blks' cs' ->
+       spec_records (hdr ++ concat blks' ++ [r4]) = Some {| g_name := g_name L; g_units := g_units L; g_cells := cs' |}) /\
     let cells := raw_of (total hdr) blocks (g_cells L) in
     read_rawcells_model bs =
       Ok (raw_finish (closed (rev cells) (names_set [] 0 (g_cells L)) (total hdr + total (concat blocks)))) /\
@@ -521,11 +548,11 @@ Theorem rawcells_agree_lemma bs L : spec_decode bs = Some L -> Forall byte_ok bs
 Proof.
   unfold spec_decode. destruct (frame_all (S (length bs)) bs) as [l|] eqn:Hf; [|discriminate].
   intros Hs Hb.
-  destruct (raw_spec_records_lemma _ _ Hs) as (hdr & blocks & r4 & rest & Hl & Ht4 & Hblk & Hlen & Hrun).
+  destruct (raw_spec_records_lemma _ _ Hs) as (hdr & blocks & r4 & rest & Hl & Ht4 & Hblk & Hlen & HF2 & Htr & Hrun).
   destruct (frame_all_bytes _ _ _ Hb Hf) as (tail0 & Hbs).
   exists hdr, blocks, r4, (flat_map rec_bytes rest ++ tail0). split.
   { rewrite Hbs, Hl. rewrite !flat_map_app. cbn [flat_map]. rewrite <- !app_assoc. reflexivity. }
-  split; [exact Ht4|]. split; [exact Hblk|]. cbn zeta.
+  split; [exact Ht4|]. split; [exact Hblk|]. split; [exact HF2|]. split; [exact Htr|]. cbn zeta.
   destruct (raw_of_names blocks (g_cells L) (total hdr) Hlen) as [Hn Hd].
   split; [|split; [exact Hn|split; [exact Hd|]]].
   - destruct (loop_frame_raw _ _ _ Hf raw_init (S (length bs)) (le_n _) _ Hrun) as [r' Hr].
@@ -547,5 +574,30 @@ Proof.
   - left. rewrite (reader_truncated_errors_lemma _ _ _ _ _ _ _ n Hr Hc). reflexivity.
 Qed.
 
+(* a selection of the blocks, in any order and with repeats, keeps the block / cell correspondence *)
+Lemma Forall2_pick {A B} (P : A -> B -> Prop) (da : A) (db : B) xs ys : Forall2 P xs ys ->
+  forall idx, Forall (fun i => (i < length xs)%nat) idx ->
+  Forall2 P (map (fun i => nth i xs da) idx) (map (fun i => nth i ys db) idx).
+Proof.
+  intros HF idx Hi. induction Hi as [|i idx Hlt _ IH]; [constructor|]. cbn [map]. constructor; [|exact IH].
+  clear IH. revert i Hlt. induction HF as [|x y xs ys Hxy _ IH]; intros i Hlt; [cbn in Hlt; lia|].
+  destruct i as [|i]; [exact Hxy|]. cbn [nth]. apply IH. cbn [length] in Hlt. lia.
+Qed.
+
+(* C17, raw cells transplanted: the recorded byte ranges of ANY selection of the raw cells, copied between the library header
+   and ENDLIB, form a record sequence the strict grammar accepts, and it decodes to exactly the selected cells *)
+Theorem rawcells_transplant_lemma l L : spec_records l = Some L ->
+  exists hdr blocks r4 rest, l = hdr ++ concat blocks ++ r4 :: rest /\ length blocks = length (g_cells L) /\
+    forall idx, Forall (fun i => (i < length blocks)%nat) idx ->
+      spec_records (hdr ++ concat (map (fun i => nth i blocks []) idx) ++ [r4]) =
+      Some {| g_name := g_name L; g_units := g_units L;
+              g_cells := map (fun i => nth i (g_cells L) empty_cell) idx |}.
+Proof.
+  intros Hs. destruct (raw_spec_records_lemma _ _ Hs) as (hdr & blocks & r4 & rest & Hl & Ht4 & Hblk & Hlen & HF2 & Htr & Hrun).
+  exists hdr, blocks, r4, rest. split; [exact Hl|]. split; [exact Hlen|]. intros idx Hi.
+  apply Htr. apply Forall2_pick; assumption.
+Qed.
+
 Print Assumptions rawcells_agree_lemma.
+Print Assumptions rawcells_transplant_lemma.
 Print Assumptions read_rawcells_truncated_lemma.
